@@ -176,6 +176,41 @@ def csv_same_table(orig: bytes, cut: bytes) -> bool:
     return parse(orig) is not None and parse(orig) == parse(cut)
 
 
+def csv_model_tie(ctx, cuts):
+    """T2 for C18_csv_truncated_differs: on every cut of every csv file the reader model (Model.Codec.read_table) and the
+    harness's independent strict parse agree on whether the cut file still holds the same table (it never does before the
+    end of the data)"""
+    from . import c05 as G5
+    header = G5.header() + """
+Fixpoint lb_eqb (a b : list bytes) : bool :=
+  match a, b with [], [] => true | x :: a', y :: b' => list_eqb x y && lb_eqb a' b' | _, _ => false end.
+Fixpoint llb_eqb (a b : list (list bytes)) : bool :=
+  match a, b with [], [] => true | x :: a', y :: b' => lb_eqb x y && llb_eqb a' b' | _, _ => false end.
+Definition same_table (full cut : bytes) : bool :=
+  match read_table full, read_table cut with
+  | Some (n1, r1), Some (n2, r2) => lb_eqb n1 n2 && llb_eqb r1 r2
+  | None, None => true
+  | _, _ => false
+  end.
+"""
+    if not cuts:
+        return
+    exprs = [f"same_table {G5.hx(full)} {G5.hx(cut)}" for full, cut, _ in cuts]
+    vals = ctx.coq_eval(header, exprs, name="c18csv", shard=120)
+    for (full, cut, k), v in zip(cuts, vals):
+        ctx.tie("T2 read_table on cut csv files = independent strict parse (same table or not)")
+        py = csv_same_table(full, cut)
+        if v is not True and py:
+            ctx.count("csv cut changes the text of the last cell but not its value (model: different table; no requirement)")
+        elif bool(v) != py:
+            ctx.violation("E2", f"reader model says the csv file cut at byte {k} {'is' if v else 'is not'} the same table, the independent "
+                                f"strict parse says it {'is' if py else 'is not'}", {"file": "csv", "damage": "cut", "offset": k}, found_input=False)
+        elif v is True:
+            ctx.violation("E2", f"reader model reads the csv file cut at byte {k} (before the end of its data) as the same table: "
+                                "C18_csv_truncated_differs does not apply to this file", {"file": "csv", "damage": "cut", "offset": k},
+                          found_input=False)
+
+
 def run(ctx):
     ctx.prove()
     thorough = ctx.tier == "thorough"
@@ -220,6 +255,7 @@ def run(ctx):
     groups = list(by_dir.values())
     with mp.get_context("fork").Pool(14, initializer=_init) as pool:
         results = pool.map(_run_group, groups)
+    csv_model_tie(ctx, [(m[3], j[2], m[2]) for j, m in zip(jobs, metas) if m[0] == "csv" and m[1] == "cut"])
     n_cut = 0
     for grp, ress in zip(groups, results):
         for (job, (label, kind, k, data, eod)), res in zip(grp, ress):
